@@ -13,6 +13,8 @@ func checkC18(c *Check) {
 		"the report lists exactly the failed list it is given; status and diagnostic come from the stored last error of that recipient; the bounce transaction uses the null return path and the failed message's sender as its only recipient; " +
 		"the report's own metadata carries no original sender (so a failing report hits the null-sender guard); the guard dominates the bounce Start; the original header parameter reaches the generator; a stored status is never the unset 0.x.x."
 	c.notCover = "MIME well-formedness of the generated report, handling of non-ASCII diagnostic text (value-level, library)."
+	c18Alias(c)
+	c18Format(c)
 	r := c.need("R1", queueRel, "Queue", "emitDSN")
 	c.Rule("R1", "FinalRecipient is the original-recipient-map entry of the failed recipient, or the recipient itself on a miss", 1)
 	c.Rule("R2", "the report lists exactly the failed recipients it was given, with the stored last error of each", 2)
@@ -362,4 +364,180 @@ func rootExpr(e ast.Expr) ast.Expr {
 			return x
 		}
 	}
+}
+
+
+// R8: where the original-recipient map is filled
+func c18Alias(c *Check) {
+	c.Rule("R8", "pipeline AddRcpt: whenever the address handed to a target differs from what the client sent, it is recorded in OriginalRcpts: the key is the very variable passed to the target's AddRcpt, the value the copy of the parameter taken before any modifier ran, and the only guard is their inequality", 2)
+	r := c.need("R8", "internal/msgpipeline", "msgpipelineDelivery", "AddRcpt")
+	if r == nil {
+		return
+	}
+	info := r.Info
+	isTgt := calling("~/framework/module.Delivery.AddRcpt")
+	tgtPts := r.Calls(isTgt)
+	var stores []Pt
+	var storeKey, storeVal []ast.Expr
+	for _, pt := range r.F.Points() {
+		as, ok := pt.Node().(*ast.AssignStmt)
+		if !ok || len(as.Lhs) != 1 || len(as.Rhs) != 1 {
+			continue
+		}
+		if ix, ok := ast.Unparen(as.Lhs[0]).(*ast.IndexExpr); ok {
+			if fv := fieldOf(info, ix.X); fv != nil && fv.Name() == "OriginalRcpts" {
+				stores = append(stores, pt)
+				storeKey = append(storeKey, ix.Index)
+				storeVal = append(storeVal, as.Rhs[0])
+			}
+		}
+	}
+	if len(tgtPts) == 0 || len(stores) == 0 {
+		c.Fail("R8", "AddRcpt:alias-record", r.FI.Decl.Pos(), "undecided: expected a target AddRcpt call and a store to OriginalRcpts")
+		return
+	}
+	var rcptParam types.Object
+	if ps := r.FI.Decl.Type.Params.List; len(ps) >= 2 && len(ps[1].Names) == 1 {
+		rcptParam = info.Defs[ps[1].Names[0]]
+	}
+	firstRewrite := token.Pos(0)
+	for _, call := range callsIn(r.FI.Decl.Body) {
+		if methodName(call) == "RewriteRcpt" && (firstRewrite == 0 || call.Pos() < firstRewrite) {
+			firstRewrite = call.Pos()
+		}
+	}
+	rangeVals := map[token.Pos]bool{}
+	for _, rs := range rangesIn(r.FI.Decl.Body, func(*ast.RangeStmt) bool { return true }) {
+		if rs.Value != nil {
+			rangeVals[rs.Value.Pos()] = true
+		}
+	}
+	for i, tp := range tgtPts {
+		call := r.CallAt(tp, isTgt)
+		key := "AddRcpt:target" + itoa(i+1)
+		if len(call.Args) < 2 {
+			c.Fail("R8", key, call.Pos(), "undecided: unexpected arguments")
+			continue
+		}
+		vx := objOf(info, call.Args[1])
+		if vx == nil {
+			c.Hold("R8", key, call.Pos(), false, "the address handed to the target is not a plain variable: "+exprStr(call.Args[1]))
+			continue
+		}
+		msg := ""
+		var orig types.Object
+		var okStores []Pt
+		for j, sp := range stores {
+			if objOf(info, storeKey[j]) != vx {
+				continue
+			}
+			o := objOf(info, storeVal[j])
+			def, n := localDef(info, r.FI.Decl.Body, o)
+			if o == nil || n != 1 || objOf(info, def) != rcptParam || rcptParam == nil || (firstRewrite != 0 && def.Pos() > firstRewrite) {
+				msg = "the value recorded in OriginalRcpts (" + exprStr(storeVal[j]) + ") is not the copy of the recipient parameter taken before the first modifier ran"
+				continue
+			}
+			if assignedBetween(info, r.FI.Decl.Body, rcptParam, r.FI.Decl.Body.Pos(), def.Pos()) {
+				msg = "the recipient parameter is overwritten before its original value is saved"
+				continue
+			}
+			orig = o
+			okStores = append(okStores, sp)
+		}
+		if len(okStores) == 0 && msg == "" {
+			msg = "no OriginalRcpts entry is keyed by the address handed to the target (" + vx.Name() + "): the report would name the rewritten address"
+		}
+		if msg == "" {
+			world := r.F.World(func(atom ast.Expr) (bool, bool) {
+				be, ok := ast.Unparen(atom).(*ast.BinaryExpr)
+				if !ok || (be.Op != token.NEQ && be.Op != token.EQL) {
+					return false, false
+				}
+				a, b := objOf(info, be.X), objOf(info, be.Y)
+				if (a == orig && b == vx) || (a == vx && b == orig) {
+					return be.Op == token.NEQ, true
+				}
+				return false, false
+			})
+			from := r.Entry()
+			for _, pt := range r.F.Points() {
+				if id, ok := pt.Node().(*ast.Ident); ok && rangeVals[id.Pos()] && objOf(info, id) == vx {
+					from = append(from, pt)
+				} else if pt.Node() != nil && assignsObj(info, pt.Node(), vx) {
+					from = append(from, pt)
+				}
+			}
+			if path, f := r.F.Reach(Query{From: from, Target: func(q Pt) bool { return q == tp }, Avoid: isPt(okStores), AvoidEdge: world}); f {
+				msg = "a rewritten recipient (" + vx.Name() + " differs from " + orig.Name() + ") can reach the target without being recorded in OriginalRcpts – the failure report would name the alias target instead of the address the sender used: " + r.F.Describe(path)
+			}
+		}
+		c.Hold("R8", key, call.Pos(), msg == "", msg)
+	}
+	c.Hold("R8", "AddRcpt:single-record-site", r.FI.Decl.Pos(), len(stores) >= 1, "")
+}
+
+
+// R9: the report's format and the way it is submitted agree
+func c18Format(c *Check) {
+	c.Rule("R9", "the internationalised-format flag given to the report generator is the flag the report is submitted with (SMTPOpts.UTF8 of the bounce), both the failed message's own SMTPUTF8 option: an RFC 6533 report is never submitted as a plain one", 1)
+	r := c.need("R9", queueRel, "Queue", "emitDSN")
+	if r == nil {
+		return
+	}
+	info := r.Info
+	var gen *ast.CallExpr
+	var sub ast.Expr
+	ast.Inspect(r.FI.Decl.Body, func(n ast.Node) bool {
+		switch x := n.(type) {
+		case *ast.CallExpr:
+			if isCall(info, x, "~/internal/dsn.GenerateDSN") {
+				gen = x
+			}
+		case *ast.CompositeLit:
+			if typeIs(info.TypeOf(x), "github.com/emersion/go-smtp", "MailOptions") {
+				for _, el := range x.Elts {
+					if kv, ok := el.(*ast.KeyValueExpr); ok {
+						if id, ok := kv.Key.(*ast.Ident); ok && id.Name == "UTF8" {
+							sub = kv.Value
+						}
+					}
+				}
+			}
+		}
+		return true
+	})
+	if gen == nil || len(gen.Args) < 1 {
+		c.Fail("R9", "emitDSN:format-flag", r.FI.Decl.Pos(), "undecided: no call of the report generator")
+		return
+	}
+	resolve := func(e ast.Expr) (string, types.Object) {
+		e = ast.Unparen(e)
+		if o, ok := objOf(info, e).(*types.Var); ok && !o.IsField() && posIn(r.FI.Decl.Body, o.Pos()) {
+			if def, n := localDef(info, r.FI.Decl.Body, o); n == 1 && def != nil {
+				return exprStr(def), nil
+			}
+			return "", o
+		}
+		return exprStr(e), nil
+	}
+	msg := ""
+	ga, go_ := resolve(gen.Args[0])
+	isMsgFlag := func(s string) bool { return len(s) > len(".SMTPOpts.UTF8") && s[len(s)-len(".SMTPOpts.UTF8"):] == ".SMTPOpts.UTF8" }
+	switch {
+	case sub == nil:
+		msg = "the bounce is submitted without the SMTPUTF8 option of the failed message (an RFC 6533 report would be submitted as a plain message)"
+	default:
+		sa, so := resolve(sub)
+		switch {
+		case go_ != nil || so != nil:
+			if go_ != so || assignedBetween(info, r.FI.Decl.Body, go_, gen.Pos(), sub.Pos()) {
+				msg = "the format flag (" + exprStr(gen.Args[0]) + ") is computed separately from the flag the report is submitted with (" + exprStr(sub) + "): the report can be generated in RFC 6533 form and submitted as a plain message (or the reverse)"
+			}
+		case ga != sa:
+			msg = "the report is generated with " + ga + " but submitted with " + sa
+		case !isMsgFlag(ga):
+			msg = "the format flag is not the failed message's SMTPUTF8 option: " + ga
+		}
+	}
+	c.Hold("R9", "emitDSN:format-flag", gen.Pos(), msg == "", msg)
 }
